@@ -341,7 +341,12 @@ fn build(node: &Value, env: &Arc<Env>) -> BView {
             } else {
                 ScrollBarPosition { offset: off as f64 / den as f64, visible: vis as f64 / den as f64 }
             };
-            Box::new(ScrollBar::new(axis_from(&node["dir"]), face_from(&node["face"]), pos))
+            // every other one through ScrollBarFn (position evaluated at render time)
+            if off % 2 == 1 {
+                Box::new(surf_n_term::view::ScrollBarFn::new(axis_from(&node["dir"]), face_from(&node["face"]), move || ScrollBarPosition { offset: pos.offset, visible: pos.visible }))
+            } else {
+                Box::new(ScrollBar::new(axis_from(&node["dir"]), face_from(&node["face"]), pos))
+            }
         }
         "tag" => Box::new(Tag::new(node["tag"].as_u64().unwrap_or(0), build(&node["v"], env))),
         "none" => Box::new(Option::<BView>::None),
@@ -866,6 +871,10 @@ pub fn run(input: &Value) -> Case {
         format!("tiny_ct={}", ct[2] <= 1 || ct[3] <= 1),
         format!("root={}", input["tree"]["t"].as_str().unwrap_or("?")),
         format!("model_compared={}", exact),
+        format!("fixed_leaf_grid={}", input["fixed"].as_bool().unwrap_or(false)),
+        format!("empty_surface={}", input["vops"].as_array().map(|a| a.iter().any(|o| o["r"]["a"] == o["r"]["b"] && o["r"].is_object() || o["c"]["a"] == o["c"]["b"] && o["c"].is_object())).unwrap_or(false)),
+        format!("tight_ct={}", ct[0] == ct[2] && ct[1] == ct[3]),
+        format!("zero_max={}", ct[2] == 0 || ct[3] == 0),
         format!("factor_double_compared={}", census.0 && exact),
         format!("factor_inexact={}", census.1),
         format!("factor_filtered_double={}", census.2),
@@ -955,12 +964,29 @@ struct Gen {
     ni: usize,
     json_ok: bool,
     inexact: bool,
+    /// small integer constants written in the view sources (and their neighbours): child counts, margins, factors,
+    /// extents and text lengths are aimed at them now and then
+    bnd: Vec<u64>,
+}
+
+const BOUNDARY_FILES: [&str; 7] = ["src/view/text.rs", "src/view/flex.rs", "src/view/container.rs", "src/view/scrollbar.rs", "src/view/layout.rs", "src/view/frame.rs", "src/render.rs"];
+
+fn pick_bnd(rng: &mut Rng, bnd: &[u64], lo: u64, hi: u64) -> Option<u64> {
+    let c: Vec<u64> = bnd.iter().cloned().filter(|x| *x >= lo && *x <= hi).collect();
+    if c.is_empty() {
+        None
+    } else {
+        Some(*rng.pick(&c))
+    }
 }
 
 fn gen_leaf(rng: &mut Rng, g: &mut Gen) -> Value {
     match rng.below(18) {
         0 | 1 => {
-            let n = rng.below(7) as usize;
+            let mut n = rng.below(7) as usize;
+            if rng.chance(1, 8) {
+                n = pick_bnd(rng, &g.bnd, 0, 40).unwrap_or(n as u64) as usize;
+            }
             let cells: Vec<Value> = (0..n)
                 .map(|_| {
                     let kind = if g.ng > 0 && rng.chance(1, 8) { json!({"t": "g", "id": rng.below(g.ng as u64)}) } else { json!({"t": "c", "ch": *rng.pick(&CHARS)}) };
@@ -970,7 +996,10 @@ fn gen_leaf(rng: &mut Rng, g: &mut Gen) -> Value {
             json!({"t": "text", "cells": cells, "wraps": rng.chance(3, 4)})
         }
         2 => {
-            let n = rng.below(6) as usize;
+            let mut n = rng.below(6) as usize;
+            if rng.chance(1, 8) {
+                n = pick_bnd(rng, &g.bnd, 0, 40).unwrap_or(n as u64) as usize;
+            }
             json!({"t": "str", "s": (0..n).map(|_| *rng.pick(&CHARS)).collect::<Vec<u32>>()})
         }
         3 => {
@@ -1005,12 +1034,14 @@ fn gen_node(rng: &mut Rng, g: &mut Gen, depth: usize) -> Value {
                 4 | 5 => 3,
                 _ => 4,
             } as usize;
+            let n = if rng.chance(1, 12) { pick_bnd(rng, &g.bnd, 0, 9).unwrap_or(n as u64) as usize } else { n };
             let exact_node = rng.chance(1, 2);
             let kids: Vec<Value> = (0..n)
                 .map(|_| {
                     let flex: Value = match rng.below(8) {
                         0..=3 => Value::Null,
                         4 => json!(*rng.pick(&[0i64, -4, -10])),
+                        5 => json!(pick_bnd(rng, &g.bnd, 1, 64).unwrap_or(1)),
                         _ => json!(1 + rng.below(12)),
                     };
                     let mut kid = json!({"v": gen_node(rng, g, depth - 1), "flex": flex, "face": if rng.chance(1, 4) { gen_small_face(rng) } else { Value::Null }, "align": gen_align(rng)});
@@ -1036,7 +1067,7 @@ fn gen_node(rng: &mut Rng, g: &mut Gen, depth: usize) -> Value {
                 // margins of a few cells on every side: larger than the box for tiny constraints
                 (0..4).map(|_| 1 + rng.below(3)).collect()
             } else {
-                (0..4).map(|_| if rng.chance(1, 2) { 0 } else { gen_extent(rng) }).collect()
+                (0..4).map(|_| if rng.chance(1, 2) { 0 } else if rng.chance(1, 6) { pick_bnd(rng, &g.bnd, 0, 64).unwrap_or(1) } else { gen_extent(rng) }).collect()
             };
             json!({"t": "container", "v": gen_node(rng, g, depth - 1), "face": if rng.chance(1, 3) { gen_small_face(rng) } else { json!({"fg": null, "bg": null, "attrs": 0}) },
                    "av": gen_align(rng), "ah": gen_align(rng), "m": m, "size": [gen_extent(rng), gen_extent(rng)]})
@@ -1062,8 +1093,61 @@ fn gen_node(rng: &mut Rng, g: &mut Gen, depth: usize) -> Value {
     }
 }
 
-pub fn generate(rng: &mut Rng, n: usize, _tier: &str) -> Vec<Value> {
+/// every leaf view, bare and inside the combinators that hand down their own constraint, under the
+/// constraints a fast path is most likely to get wrong: tight (zero, one cell, larger than the natural
+/// size), zero height or width, a minimum above the natural size
+fn fixed_cases() -> Vec<Value> {
+    let f0 = json!({"fg": null, "bg": null, "attrs": 0});
+    let cell = |ch: u32| json!({"face": f0, "kind": {"t": "c", "ch": ch}});
+    let leaves: Vec<Value> = vec![
+        json!({"t": "text", "cells": [cell(97), cell(98), cell(32), cell(99)], "wraps": true}),
+        json!({"t": "text", "cells": [cell(97), cell(0x6F22), cell(10), cell(98)], "wraps": true}),
+        json!({"t": "text", "cells": [cell(97), cell(98), cell(99), cell(100), cell(97), cell(98)], "wraps": false}),
+        json!({"t": "text", "cells": [], "wraps": true}),
+        json!({"t": "str", "s": [97, 98, 99]}),
+        json!({"t": "fill", "color": 0x102055ffu64}),
+        json!({"t": "unit"}),
+        json!({"t": "none"}),
+        json!({"t": "scroll", "dir": "h", "face": f0, "off": 1, "vis": 3, "den": 8}),
+        json!({"t": "scroll", "dir": "v", "face": f0, "off": 0, "vis": 8, "den": 8}),
+        json!({"t": "surface", "h": 2, "w": 3, "ch": 83, "face": f0}),
+        json!({"t": "ascii", "h": 3, "w": 2, "color": 0x204033ffu64}),
+        json!({"t": "image", "id": 0}),
+        json!({"t": "glyph", "id": 0}),
+        json!({"t": "probe", "id": 1, "ph": 2, "pw": 3}),
+    ];
+    let cts: [[u64; 4]; 7] = [[0, 0, 0, 0], [1, 1, 1, 1], [3, 7, 3, 7], [0, 5, 0, 5], [0, 0, 8, 0], [4, 9, 6, 12], [0, 0, 5, 10]];
     let mut v = vec![];
+    let mut k = 0usize;
+    for leaf in &leaves {
+        let wrapped: Vec<Value> = vec![
+            leaf.clone(),
+            json!({"t": "container", "v": leaf, "face": f0, "av": "expand", "ah": "expand", "m": [0, 0, 0, 0], "size": [0, 0]}),
+            json!({"t": "flex", "dir": "h", "j": "start", "kids": [{"v": leaf, "flex": 4, "face": null, "align": "expand"}]}),
+        ];
+        for tree in wrapped {
+            for ct in cts.iter() {
+                let t = tree["t"].as_str().unwrap_or("");
+                // frames, scroll bars and Option::None have no JSON form; the other routes take every tree
+                let route = match k % 3 {
+                    0 => "ctor",
+                    1 => "ref",
+                    _ => if t == "frame" { "ctor" } else { "json" },
+                };
+                k += 1;
+                v.push(json!({"H": 9, "W": 14, "vops": [{"r": {"f": "rng", "a": 1, "b": 8}, "c": {"f": "rng", "a": 1, "b": 12}}], "ppc": [PPC_H as u64, PPC_W as u64],
+                              "glyphs": k % 2 == 0, "route": route, "glyph_defs": [{"h": 1, "w": 2, "fb": [120, 121]}], "image_defs": [{"ph": 30, "pw": 25}],
+                              "ct": ct, "tree": tree, "fixed": true}));
+            }
+        }
+    }
+    v
+}
+
+pub fn generate(rng: &mut Rng, n: usize, _tier: &str) -> Vec<Value> {
+    let bnd = source_boundaries(&BOUNDARY_FILES, 64);
+    let mut v = fixed_cases();
+    let n = n + v.len();
     while v.len() < n {
         if rng.chance(1, 12) {
             let depth = 1 + rng.below(3) as usize;
@@ -1079,7 +1163,7 @@ pub fn generate(rng: &mut Rng, n: usize, _tier: &str) -> Vec<Value> {
             .collect();
         let ni = rng.below(3) as usize;
         let image_defs: Vec<Value> = (0..ni).map(|_| json!({"ph": rng.below(3 * PPC_H as u64), "pw": rng.below(4 * PPC_W as u64)})).collect();
-        let mut g = Gen { next_probe: 0, ng, ni, json_ok: true, inexact: rng.chance(1, 6) };
+        let mut g = Gen { next_probe: 0, ng, ni, json_ok: true, inexact: rng.chance(1, 6), bnd: bnd.clone() };
         let depth = match rng.below(10) {
             0 => 0,
             1 => 1,
@@ -1094,6 +1178,7 @@ pub fn generate(rng: &mut Rng, n: usize, _tier: &str) -> Vec<Value> {
                 1 | 2 => 1,
                 3 => 2,
                 4 => *rng.pick(&[u64::MAX, u64::MAX - 1, u64::MAX - 2, 1 << 63, (1 << 63) - 1, 1 << 32, 1_000_000]),
+                5 => pick_bnd(rng, &bnd, 0, 64).unwrap_or(3),
                 _ => rng.below(13),
             }
         };
@@ -1107,7 +1192,15 @@ pub fn generate(rng: &mut Rng, n: usize, _tier: &str) -> Vec<Value> {
         };
         let (minh, minw) = (min_of(rng, maxh), min_of(rng, maxw));
         // canvas and view: room for the root plus what frames / scroll bars add, padded
-        let (vh, vw) = (1 + rng.below(12) as usize, 1 + rng.below(14) as usize);
+        // the surface: usually smaller or larger than what the layout says; now and then without any cell
+        let (mut vh, mut vw) = (1 + rng.below(12) as usize, 1 + rng.below(14) as usize);
+        if rng.chance(1, 20) {
+            if rng.chance(1, 2) {
+                vh = 0;
+            } else {
+                vw = 0;
+            }
+        }
         let pad: Vec<usize> = (0..4).map(|_| rng.below(3) as usize).collect();
         let (mut hh, mut ww) = (pad[0] + vh + pad[2], pad[1] + vw + pad[3]);
         let mut vops = vec![];
